@@ -15,7 +15,7 @@
 //! (results, remaining(), initialized(), owner length / contents, memory) into the
 //! vocabulary of Buffer.tla. A panic is an outcome {"r":"panic"}.
 use arrayvec::ArrayVec;
-use libtw2_buffer::{with_buffer, Buffer, BufferRef, ReadBuffer};
+use libtw2_buffer::{with_buffer, Buffer, BufferRef, ReadBuffer, ReadBufferRef};
 use rand::rngs::StdRng;
 use rand::{Rng, SeedableRng};
 use serde_json::{json, Value};
@@ -38,6 +38,7 @@ enum Op {
     CloseInit,
     Unwind,
     Read { bs: Vec<u8>, ks: Vec<usize> },
+    ReadClose { bs: Vec<u8> },
     Final,
 }
 
@@ -65,6 +66,7 @@ fn parse_op(a: &Value) -> Op {
         "closeinit" => Op::CloseInit,
         "unwind" => Op::Unwind,
         "read" => Op::Read { bs: bytes_of(&a["bs"]), ks: usizes_of(&a["ks"]) },
+        "readclose" => Op::ReadClose { bs: bytes_of(&a["bs"]) },
         "final" => Op::Final,
         other => panic!("harness: unknown act {:?}", other),
     }
@@ -82,6 +84,7 @@ fn act_of(op: &Op) -> Value {
         Op::CloseInit => json!({"a":"closeinit"}),
         Op::Unwind => json!({"a":"unwind"}),
         Op::Read { bs, ks } => json!({"a":"read","bs":bs,"ks":ks}),
+        Op::ReadClose { bs } => json!({"a":"readclose","bs":bs}),
         Op::Final => json!({"a":"final"}),
     }
 }
@@ -183,7 +186,8 @@ impl Source {
                             8 | 9 => Op::Advance { bs: { let n = rand_len(rng, rem, false).min(rem); rand_bytes(rng, n) } },
                             10 => Op::Scribble { bs: { let n = rand_len(rng, rem, false).min(rem); rand_bytes(rng, n) } },
                             11..=13 if depth < cfg.maxdepth => Op::Open { ks: rand_chain(rng, rem) },
-                            14 | 15 => Op::Read { bs: { let n = rand_len(rng, rem, true); rand_bytes(rng, n) }, ks: rand_chain(rng, rem) },
+                            15 => Op::ReadClose { bs: { let n = rand_len(rng, rem, true).max(1); rand_bytes(rng, n) } },
+                            14 => Op::Read { bs: { let n = rand_len(rng, rem, true); rand_bytes(rng, n) }, ks: rand_chain(rng, rem) },
                             16 => Op::CloseInit,
                             17 => Op::Unwind,
                             18 => Op::Close,
@@ -369,6 +373,17 @@ fn run_view<'d, 's>(mut b: BufferRef<'d, 's>, cx: &mut Cx, open_act: Value, dept
                     Err(e) => panic!("harness: read_buffer io error {:?}", e),
                 };
                 cx.push(act, Out::ok().data(data).rem(b.remaining()));
+            }
+            Op::ReadClose { bs } => {
+                // the view itself (it may already hold bytes) goes to the reader and is consumed
+                let mut rd: &[u8] = &bs;
+                let s = match rd.read_buffer_ref(b) {
+                    Ok(s) => s.to_vec(),
+                    Err(e) => panic!("harness: read_buffer_ref io error {:?}", e),
+                };
+                cx.push(act, Out::ok().data(s));
+                cx.current = None;
+                return Exit::Closed(cx.events.len() - 1);
             }
             Op::Close => {
                 cx.push(act, Out::ok().data(Vec::new()));
@@ -1220,7 +1235,7 @@ fn cmd_drive(args: &[String]) {
 /// Compact plans for the Miri run (no JSON inside the interpreter): one plan per line, operations
 /// separated by ';', numbers by blanks:
 ///   S <kind> <cap> <len0> <mem0...> ; O <ks...> ; W <bs...> ; E <bs...> ; A <bs...> ; X <bs...> ;
-///   R <n> <bs (n bytes)...> <ks...> ; C ; I ; U ; F
+///   R <n> <bs (n bytes)...> <ks...> ; Q <bs...> ; C ; I ; U ; F
 fn parse_compact(line: &str) -> Vec<Op> {
     let mut ops = Vec::new();
     for part in line.split(';') {
@@ -1250,6 +1265,7 @@ fn parse_compact(line: &str) -> Vec<Op> {
                 let n = nums[0];
                 Op::Read { bs: bytes(&nums[1..1 + n]), ks: nums[1 + n..].to_vec() }
             }
+            "Q" => Op::ReadClose { bs: bytes(&nums) },
             "C" => Op::Close,
             "I" => Op::CloseInit,
             "U" => Op::Unwind,
